@@ -725,21 +725,21 @@ bool Session::retrans_callback(const SequencePair& with, RetransmissionContext& 
 			//cout << "#4" << endl;
 		}
 		*/
-		if (!rctx._last) // start to infinity requested
+		// first number of the range not yet answered, and the number after the range (which ends where sending has got to)
+		const unsigned from(rctx._last ? rctx._last + 1 : rctx._begin),
+			upto(rctx._end && rctx._end + 1 < rctx._interrupted_seqnum ? rctx._end + 1 : rctx._interrupted_seqnum);
+		if (from < upto) // the range ends with numbers that have no stored message
 		{
-			// handle case where requested seq is greater than current last sent seq (interrupted)
-			const unsigned nseq(rctx._begin >= rctx._interrupted_seqnum ? rctx._begin + 1 : rctx._interrupted_seqnum);
-			send(generate_sequence_reset(nseq, true), true, rctx._begin);
-			_next_send_seq = nseq;
-			slout_debug << "retrans_callback scenario #" << (nseq == rctx._interrupted_seqnum ? 4 : 5) << ' ' << rctx;
+			send(generate_sequence_reset(upto, true), true, from);
+			slout_debug << "retrans_callback scenario #" << (rctx._last ? 1 : 4) << ' ' << rctx;
 		}
-		else // range requested // was: if (rctx._end)
+		else if (!rctx._last && from >= rctx._interrupted_seqnum)
 		{
 			// handle case where requested seq is greater than current last sent seq (interrupted)
-			const unsigned nseq(rctx._last + 1 >= rctx._interrupted_seqnum ? rctx._last + 2 : rctx._interrupted_seqnum);
-			send(generate_sequence_reset(nseq, true), true, rctx._last + 1);
+			const unsigned nseq(from + 1);
+			send(generate_sequence_reset(nseq, true), true, from);
 			_next_send_seq = nseq;
-			slout_debug << "retrans_callback scenario #" << (nseq == rctx._interrupted_seqnum ? 1 : 6) << ' ' << rctx;
+			slout_debug << "retrans_callback scenario #5 " << rctx;
 		}
 		do_state_change(States::st_continuous);
 		return true;
@@ -749,7 +749,7 @@ bool Session::retrans_callback(const SequencePair& with, RetransmissionContext& 
 	{
 		if (rctx._last + 1 < with.first)
 		{
-			send(generate_sequence_reset(with.first, true), true, _next_send_seq);
+			send(generate_sequence_reset(with.first, true), true, rctx._last + 1); // a gap fill carries the first number of its gap
 			slout_debug << "retrans_callback scenario #2, " << rctx;
 		}
 	}
@@ -757,7 +757,7 @@ bool Session::retrans_callback(const SequencePair& with, RetransmissionContext& 
 	{
 		if (with.first > rctx._begin)
 		{
-			send(generate_sequence_reset(with.first, true));
+			send(generate_sequence_reset(with.first, true), true, rctx._begin);
 			slout_debug << "retrans_callback scenario #3, " << rctx;
 		}
 	}
